@@ -122,8 +122,11 @@ class GridDistortion:
         data['yr'] = np.reshape(self.optic.surface_group.y[-1, :],
                                 (self.num_points, self.num_points))
 
-        # optical system flips x, so must correct this
-        data['xp'] = np.flip(xp)
+        # the ray generator mirrors x for angular fields only
+        if self.optic.field_type == 'angle':
+            data['xp'] = np.flip(xp)
+        else:
+            data['xp'] = xp
         data['yp'] = yp
 
         # Find max distortion
